@@ -5,20 +5,10 @@
 (* `like`, one axis after the other in the order of the grid's axes, under the rule  *)
 (* and fill value in force; on every other axis (same position, or an axis one of    *)
 (* the two lacks) nothing happens.  The answer is the geometric interp of Calls.tla. *)
-EXTENDS Calls, Json, IOUtils, TLC
+EXTENDS Calls, X01Defs, Json, IOUtils, TLC
 
 Tr == ndJsonDeserialize(IOEnv.TRACE_FILE)
 VARIABLE i
-
-\* <<axis name, position of like>> for the axes (grid order) on which array and like differ
-RECURSIVE LikeSteps(_, _, _, _)
-LikeSteps(grid, adims, ldims, k) ==
-  IF k > Len(grid.axes) THEN <<>>
-  ELSE LET ax == grid.axes[k]
-           pa == PosIn(ax, adims)
-           pl == PosIn(ax, ldims)
-       IN (IF Cardinality(pa) = 1 /\ Cardinality(pl) = 1 /\ pa # pl
-           THEN << <<ax.name, CHOOSE p \in pl : TRUE>> >> ELSE <<>>) \o LikeSteps(grid, adims, ldims, k + 1)
 
 \* the same request spelt as a Grid.interp call
 AsInterp(r) ==
